@@ -867,6 +867,22 @@ class StmtMixin:
             base = None
         if base is not None and isinstance(base.t, TOpt):
             base = opt_get(base)
+        if base is None and isinstance(recv_expr, ast.Name):
+            # a local bound inside the loop body (ochunk = queue[pos]): its declared type (sidecar `locals`) names the
+            # class; every object's field of that name is havoced
+            c = self.cur_contract()
+            ttxt = c.locals.get(recv_expr.id) if c is not None else None
+            t = self.parse_type(ttxt) if ttxt else None
+            if isinstance(t, TOpt):
+                t = t.inner
+            if isinstance(t, TObj):
+                ft = self.field_type(t.cls, self.mangle(attr))
+                if ft is None:
+                    raise Unsupported(f"write to undeclared field {t.cls}.{attr}")
+                key = f"{ft[0]}.{self.mangle(attr)}"
+                m = self.heap_map(hst, key, sort_of(ft[1]))
+                hst.heap[key] = z3.Const(fresh_name("H!" + key), m.sort())
+                return
         if base is None or not isinstance(base.t, TObj):
             if base is not None and isinstance(base.t, TOpaque):
                 return
